@@ -5,6 +5,7 @@ import (
 	"reflect"
 	"unsafe"
 
+	"github.com/goccy/go-json/internal/errors"
 	"github.com/goccy/go-json/internal/runtime"
 )
 
@@ -41,10 +42,29 @@ func (d *wrappedStringDecoder) DecodeStream(s *Stream, depth int64, p unsafe.Poi
 	}
 	b := make([]byte, len(bytes)+1)
 	copy(b, bytes)
-	if _, err := d.dec.Decode(&RuntimeContext{Buf: b, Option: s.Option}, 0, depth, p); err != nil {
+	end, err := d.dec.Decode(&RuntimeContext{Buf: b, Option: s.Option}, 0, depth, p)
+	if err != nil {
+		return err
+	}
+	if err := d.validateLiteral(bytes, end, s.totalOffset()); err != nil {
 		return err
 	}
 	return nil
+}
+
+// validateLiteral reports an error unless the wrapped decoder consumed exactly the
+// content of the string: no white space before the literal and nothing after it.
+func (d *wrappedStringDecoder) validateLiteral(content []byte, end, offset int64) error {
+	if end == int64(len(content)) && (len(content) == 0 || !isWhiteSpace[content[0]]) {
+		return nil
+	}
+	return &errors.UnmarshalTypeError{
+		Value:  fmt.Sprintf("string %q", content),
+		Type:   runtime.RType2Type(d.typ),
+		Struct: d.structName,
+		Field:  d.fieldName,
+		Offset: offset,
+	}
 }
 
 func (d *wrappedStringDecoder) Decode(ctx *RuntimeContext, cursor, depth int64, p unsafe.Pointer) (int64, error) {
@@ -58,13 +78,18 @@ func (d *wrappedStringDecoder) Decode(ctx *RuntimeContext, cursor, depth int64, 
 		}
 		return c, nil
 	}
+	content := bytes
 	bytes = append(bytes, nul)
 	oldBuf := ctx.Buf
 	ctx.Buf = bytes
-	if _, err := d.dec.Decode(ctx, 0, depth, p); err != nil {
+	end, err := d.dec.Decode(ctx, 0, depth, p)
+	ctx.Buf = oldBuf
+	if err != nil {
 		return 0, err
 	}
-	ctx.Buf = oldBuf
+	if err := d.validateLiteral(content, end, c); err != nil {
+		return 0, err
+	}
 	return c, nil
 }
 
